@@ -28,7 +28,7 @@ MANIFEST = dict(
          "constants, fixed keys, composition order and de-dup kind of both facades regenerated from the source; the hand-transcribed "
          "comprehensions by differential correspondence against the REAL GeckoAsyncFacade and GeckoFacade built on stub spas (assignment "
          "written into the block through the real accessors)."
-         ' Since session 3: rescans_are_idempotent (the facade OBJECT scanned any number of times holds the inventory of one scan; whether each list is rebuilt or grown is generated from both scan methods), checked by re-connecting the real blocking facade. A new output wiring reported on a live connection after a facade has read the outputs; the oracle decodes labels from the raw block.',
+         ' Since session 3: rescans_are_idempotent (the facade OBJECT scanned any number of times holds the inventory of one scan; whether each list is rebuilt or grown is generated from both scan methods), checked by re-connecting the real blocking facade. A new output wiring reported on a live connection after a facade has read the outputs; the oracle decodes labels from the raw block. The first value past an output\'s label list (byte = number of labels) and the next one, on every byte-wide output, alone and beside an ordinary wiring.',
     note="Trusted: Lean kernel; harness/gen_c12.py (AST evaluation of const.py, syntactic facts); the correspondence harness. 'Wired to an "
          "output' is the label-prefix relation the library itself uses (no other definition exists in the repository). str.upper() is modelled "
          "as ASCII upper: every upper-cased key of the shipped tables is ASCII (checked by the kernel).",
@@ -322,6 +322,16 @@ def assignments(ctx, spa, n_random, exhaustive_single):
         acc = spa.accessors[o]
         if acc.bitpos is None and acc.length == 1 and len(acc.items or []) < 255:
             res.append([(o, 255)])
+    # ... in particular the FIRST value past the list (the byte equals the number of labels: a newer firmware's label, an
+    # unprogrammed slot) and the one after it, on every output, alone and next to an ordinary wiring
+    edge = [o for o in outs if spa.accessors[o].bitpos is None and spa.accessors[o].length == 1 and 0 < len(spa.accessors[o].items or []) < 254]
+    for o in (edge if exhaustive_single else edge[:5] + rng.sample(edge, min(3, len(edge)))):
+        n_ = len(spa.accessors[o].items)
+        res.append([(o, n_)])
+        res.append([(o, n_ + 1)])
+        other = [x for x in outs if x != o and non_na[x]]
+        if other:
+            res.append([(other[0], non_na[other[0]][0]), (o, n_)])
     if exhaustive_single:
         for o in outs:
             for l in labs[o]:
